@@ -1,7 +1,7 @@
 (* Properties/C19.v — converted maps are well-formed inputs of their target mode (the modelled
    parts; pattern choice and slider geometry are exercised by the direct oracle only — partial). *)
-From Coq Require Import ZArith List Bool Floats.
-From V Require Import Tables F64 F32 Decode DecodeProofs ManiaCols ManiaColsProofs.
+From Coq Require Import ZArith List Bool Floats Reals.
+From V Require Import Tables F64 F32 FExact FInt FDy Decode DecodeProofs ManiaCols ManiaColsProofs Prng PrngProofs.
 Import ListNotations.
 Open Scope Z_scope.
 
@@ -64,3 +64,29 @@ Print Assumptions C19_column_inverse_14_refuted.
 Theorem C19_sort_facts_now : forallb snd Tables.sort_facts = true /\ (3 <= length Tables.sort_facts)%nat.
 Proof. exact tables_sort_facts. Qed.
 Print Assumptions C19_sort_facts_now.
+
+(* mania conversion, random columns: Random::next_int_range is EXACT in binary64 - 2^-31, n * 2^-31,
+   n * (hi - lo) * 2^-31 and the sum with lo are all representable, so no operation rounds - and equals
+   lo + floor(n * (hi - lo) / 2^31) for every raw 31-bit output n (proved with Flocq) *)
+Theorem C19_next_int_range_exact : forall n lo hi : Z,
+  0 <= n < 2 ^ 31 -> 0 <= lo <= hi -> hi <= 2 ^ 20 ->
+  next_int_range n lo hi = lo + n * (hi - lo) / 2 ^ 31.
+Proof. exact next_int_range_exact. Qed.
+Print Assumptions C19_next_int_range_exact.
+
+(* ... hence for EVERY state of the generator (model of src/util/random/osu.rs, tied to the code by
+   recorded call sequences on every run) a random column asked for in [lo, hi) is in [lo, hi), and
+   next_double lies in [0, 1) *)
+Theorem C19_random_column_in_range : forall (s : orng) (lo hi : Z), 0 <= lo < hi -> hi <= 2 ^ 20 ->
+  lo <= fst (onext_int_range s lo hi) < hi.
+Proof. exact onext_int_range_in_range. Qed.
+Print Assumptions C19_random_column_in_range.
+
+Theorem C19_next_double_unit : forall s : orng,
+  fin (fst (onext_double s)) /\ (0 <= RV (fst (onext_double s)) < 1)%R.
+Proof. exact onext_double_unit. Qed.
+Print Assumptions C19_next_double_unit.
+
+Example C19_random_column_example :
+  orun (onew 1337) [ORange 0 7; ORange 2 5; OBool; OInt] = [0; 2; 0; 1928063929].
+Proof. vm_compute. reflexivity. Qed.
